@@ -81,7 +81,7 @@ func generate(prop, tier, lane string, seed uint64, worker, run int) *Scenario {
 	switch prop {
 	case "C11":
 		// a fixed small share of the runs gets a subject beyond 2^16 keys
-		c11Huge = lane == "sim" && ((run == 2 && worker < 4) || (tier == "thorough" && run%400 == 399) || os.Getenv("SLIMSIM_C11_ALL_HUGE") != "")
+		c11Huge = lane == "sim" && ((run == 2 && worker < 8) || (tier == "thorough" && run%400 == 399) || os.Getenv("SLIMSIM_C11_ALL_HUGE") != "")
 		scn.C11 = genC11(r, tier)
 		c11Huge = false
 		scn.Strat = genStrategy(r)
